@@ -217,6 +217,8 @@ def capture_pty(fn):
     attrs[1] &= ~termios.OPOST
     termios.tcsetattr(slave, termios.TCSANOW, attrs)
     chunks = []
+    sentinel = b"\x00\x00<end-of-capture>\x00\x00"
+    seen = threading.Event()
 
     def reader():
         while True:
@@ -227,6 +229,9 @@ def capture_pty(fn):
             if not data:
                 break
             chunks.append(data)
+            if sentinel in b"".join(chunks[-3:]) or sentinel in b"".join(chunks):
+                seen.set()
+                break
 
     th = threading.Thread(target=reader, daemon=True)
     th.start()
@@ -241,12 +246,20 @@ def capture_pty(fn):
         sys.stdout = saved
         try:
             out.flush()
+            # the slave is closed only after the master side has received everything: closing it
+            # while data is still in flight to the master can lose the tail under heavy machine load
+            os.write(slave, sentinel)
             termios.tcdrain(slave)
         except Exception:
             pass
+        seen.wait(120)
         out.close()
-    th.join(5)
+    th.join(120)
     os.close(master)
+    data = b"".join(chunks)
+    if sentinel in data:
+        data = data[:data.index(sentinel)]
+    chunks = [data]
     return b"".join(chunks).decode("utf-8"), exc
 
 
